@@ -448,12 +448,7 @@ func (dtlsr *DTLSR) computeRoutingTable() {
 
 	// add edges originating from this node
 	for peer, timestamp := range dtlsr.peers.Peers {
-		var edgeCost int64
-		if timestamp == 0 {
-			edgeCost = 0
-		} else {
-			edgeCost = int64(currentTime - timestamp)
-		}
+		edgeCost := dtlsrEdgeCost(currentTime, timestamp)
 
 		if err := graph.AddArc(0, dtlsr.nodeIndex[peer], edgeCost); err != nil {
 			log.WithFields(log.Fields{
@@ -472,12 +467,7 @@ func (dtlsr *DTLSR) computeRoutingTable() {
 	// add edges originating from other nodes
 	for _, data := range dtlsr.receivedData {
 		for peer, timestamp := range data.Peers {
-			var edgeCost int64
-			if timestamp == 0 {
-				edgeCost = 0
-			} else {
-				edgeCost = int64(currentTime - timestamp)
-			}
+			edgeCost := dtlsrEdgeCost(currentTime, timestamp)
 
 			if err := graph.AddArc(dtlsr.nodeIndex[data.ID], dtlsr.nodeIndex[peer], edgeCost); err != nil {
 				log.WithFields(log.Fields{
@@ -527,6 +517,23 @@ func (dtlsr *DTLSR) computeRoutingTable() {
 	}).Debug("Finished routing table computation")
 
 	dtlsr.routingTable = routingTable
+}
+
+// dtlsrMaxEdgeCost limits an edge's cost, about 35 years in milliseconds, such that a path's costs do not overflow.
+const dtlsrMaxEdgeCost = 1 << 40
+
+// dtlsrEdgeCost is the cost of a link which is up, a zero timestamp, or was lost at the timestamp: the time since then.
+// A received timestamp ahead of this node's clock counts as lost right now. Its unsigned difference would be a
+// negative cost otherwise, for which the search of the shortest paths might not terminate.
+func dtlsrEdgeCost(currentTime, timestamp bpv7.DtnTime) int64 {
+	if timestamp == 0 || timestamp >= currentTime {
+		return 0
+	}
+
+	if cost := uint64(currentTime - timestamp); cost < dtlsrMaxEdgeCost {
+		return int64(cost)
+	}
+	return dtlsrMaxEdgeCost
 }
 
 // recomputeCron gets called periodically by the routing's cron module.
